@@ -144,6 +144,7 @@ def finish(chk, seed=0):
             "api_rows_used": sorted(chk.api_rows), "trusted_base": sorted(chk.api_rows),
             "file_digests": chk.P.digests(rels), "checker_cmd": "./check %s --tier %s" % (chk.pid, chk.tier),
             "notes": chk.notes[:60], "exhaustive": False,
+            "selftest": getattr(chk, "selftest", None),
         },
         "assumptions": chk.assumptions + [
             "the API table rows (sa/api.py) state NumPy/SciPy behaviour correctly (trusted base, listed in coverage.api_rows_used)",
